@@ -13,19 +13,21 @@ REG = {
     "_rlimit": 50,
     "C01": {
         "thorough_extra": ["replay"],
-        "units": ["diff"],
+        "units": ["diff", "validate"],
         "scope": "DiffTool::diff + peek_* + Diff::has_differences + split_at_newline + Expectation::matches: "
-                 "result has no differences  ==>  the output's lines are in the language e1{q1}..en{qn} (spec fn `accepts`)",
+                 "result has no differences  ==>  the output's lines are in the language e1{q1}..en{qn} (spec fn `accepts`); and at the API that judges a test, "
+                 "TestCase::validate: Ok ==> accepts(expectations, lines_of(selected stream)) (unit validate, modular over the diff contracts)",
         "assumptions": DIFF_TRUST,
         "not_decided": [],
     },
     "C02": {
         "thorough_extra": ["replay"],
-        "units": ["diff"],
+        "units": ["diff", "matchers"],
         "scope": "DiffTool::diff: terminates (decreases), no panic (index/overflow/unwrap obligations), result satisfies wf_prefix: "
                  "every output line exactly once in order with content equal to the split line, matched lines really match, "
                  "expectation indices strictly increasing, skipped ones optional, unmatched ones non-optional; split_at_newline "
-                 "is the split of the bytes after every LF (concat == output)",
+                 "is the split of the bytes after every LF (concat == output). Unit matchers: the six Rule::matches implementations that diff calls and the "
+                 "newline helpers under them terminate and cannot panic (their safety/decreases obligations; contracts re-used from unit escaping)",
         "assumptions": DIFF_TRUST,
         "not_decided": [],
     },
